@@ -239,19 +239,28 @@ func (o *Obligation) VC() []*Term {
 	if o.Cover {
 		// reachability queries must come back "sat": quantified assumptions (frame and enumeration axioms) are left
 		// out so that the solvers can decide them; what is checked is consistency of the ground facts on the path.
+		var hyps []*Term
 		for _, a := range u.assumptions[:o.NAssume] {
 			if !hasQuant(a) {
-				as = append(as, a)
+				hyps = append(hyps, a)
 			}
 		}
+		as = append(as, filterRelevant([]*Term{o.Guard}, hyps)...)
 		as = append(as, o.Guard)
 		as = append(as, u.frameInstances(as, o.NAssume)...)
 		return as
 	}
-	goal := []*Term{o.Guard, u.c.Not(o.Prop)}
+	var sk []*Term
+	u.substMaps = nil
+	goal := []*Term{o.Guard, u.negSkolem(o.Prop, &sk)}
 	hyps := append([]*Term{}, u.assumptions[:o.NAssume]...)
 	hyps = append(hyps, u.aliasFacts(o.NAssume)...)
-	as = append(as, filterRelevant(goal, hyps)...)
+	kept := filterRelevant(goal, hyps)
+	as = append(as, kept...)
+	as = append(as, u.instantiate(kept, sk)...)
+	of, op := u.instOpenFacts(o.NAssume)
+	as = append(as, of...)
+	as = append(as, u.aliasFactsFor(op, o.NAssume)...)
 	as = append(as, u.strOrderAxioms()...)
 	as = append(as, goal...)
 	as = append(as, u.frameInstances(as, o.NAssume)...)
@@ -344,6 +353,11 @@ func hasQuant(t *Term) bool {
 // RelaxedVC is the quantifier-free relaxation (quantified assumptions dropped, frame axioms instantiated on the
 // addresses that are read). A model of it is only a *candidate* explanation of an unproved obligation.
 func (o *Obligation) RelaxedVC() []*Term {
+	as, _ := o.RelaxedVCGoal()
+	return as
+}
+
+func (o *Obligation) RelaxedVCGoal() ([]*Term, *Term) {
 	u := o.Unit
 	var as []*Term
 	for _, a := range u.assumptions[:o.NAssume] {
@@ -353,9 +367,22 @@ func (o *Obligation) RelaxedVC() []*Term {
 	}
 	as = append(as, u.aliasFacts(o.NAssume)...)
 	as = append(as, o.Guard)
-	if !hasQuant(o.Prop) {
-		as = append(as, u.c.Not(o.Prop))
+	var sk []*Term
+	u.substMaps = nil
+	ng := u.negSkolem(o.Prop, &sk)
+	if !hasQuant(ng) {
+		as = append(as, ng)
 	}
+	as = append(as, u.instantiate(u.assumptions[:o.NAssume], sk)...)
+	of, op := u.instOpenFacts(o.NAssume)
+	as = append(as, of...)
+	as = append(as, u.aliasFactsFor(op, o.NAssume)...)
 	as = append(as, u.frameInstances(as, o.NAssume)...)
-	return as
+	var qf []*Term
+	for _, a := range as {
+		if !hasQuant(a) {
+			qf = append(qf, a)
+		}
+	}
+	return qf, ng
 }
